@@ -275,7 +275,7 @@ type c40World struct {
 	exclClass         string
 	lastIdx           common.Range[uint64] // IndexedBlocks as last sampled by indexed()
 	lastIdxOK         bool
-	everLimited       bool // some indexer instance of this scenario ran with a history limit
+	everLimited       bool   // some indexer instance of this scenario ran with a history limit
 	revertedSinceIdle bool   // a head switch removed canonical blocks since the indexer was last known idle
 	release           func() // non-nil while the harness withholds an indexer step (see valve)
 	everIdx           bool   // indexing was enabled and waited for at least once
